@@ -1,5 +1,5 @@
 #!/bin/sh
 # tools/intake_batch.sh <batch-file> <agents-root> [parallel]: lines "<prop> <A|B> <seed-id> <check>..." -> tools/intake_seed.sh, logs in scratch/w9/<seed-id>.log
 f=$1; root=$2; P=${3:-4}
-mkdir -p /verif/scratch/w9
-grep -v '^#' "$f" | xargs -P $P -L 1 sh -c 'p=$0; w=$1; id=$2; shift 2; SHOW=1 nice -n 5 /verif/tools/intake_seed.sh '"$root"'/$p $w $id "$@" > /verif/scratch/w9/$id.log 2>&1; echo "done $id"'
+mkdir -p /verif/scratch/${WAVE:-w9}
+grep -v '^#' "$f" | xargs -P $P -L 1 sh -c 'p=$0; w=$1; id=$2; shift 2; SHOW=1 nice -n 5 /verif/tools/intake_seed.sh '"$root"'/$p $w $id "$@" > /verif/scratch/${WAVE:-w9}/$id.log 2>&1; echo "done $id"'
